@@ -135,9 +135,10 @@ CLAIMS = {
         "Theorems (6) on the heap model: no non-write op changes any allocated array, accessor values are a function of the private "
         "contents, repeated access returns the same value after any constructor-free history. Correspondence: random call histories over "
         "~28 public functions on shared arguments (incl. a shared StateTraj and an unsorted lag ndarray) with reseeding of the Python, "
-        "NumPy and compiled generators; argument snapshots and repeated calls.",
-        "partial: the theorem is thin (analyses are readers in the model); the assurance is the history differential",
-        "Lean invariant on the heap model + call-history differential"),
+        "NumPy and compiled generators; argument snapshots and repeated calls. Static obligation: no function of the package writes through a "
+        "parameter (alias analysis harness/argwrites.py over all 134 functions of the working tree, evidence static_checks).",
+        "partial: the heap theorems are thin (analyses are readers in the model); the assurance is the history differential, the static argument-write analysis and, for the sampling kernels, the refinement theorems (result = function of arguments and draw stream)",
+        "Lean invariant on the heap model + call-history differential + static argument-write analysis"),
     "C19": (
         "Theorems (5): chunking (flatten = list, none empty, all but last of size c, count = ceil), the cored file has one row per frame, "
         "limits are processed piece by piece (no cross-boundary coring), single-piece law. Correspondence: real commands through click "
